@@ -698,6 +698,12 @@ def run_cycle_case(case):
             if over:
                 violate('too-many-passes', i, op, f'<= {iterations} calls per tag', over)
                 continue
+            if any(isinstance(x, bool) or not isinstance(x, (int, float))
+                   for xs in calls.values() for x in xs):
+                if not fired:
+                    violate('wrong-value-after-repair' if fired_any else 'wrong-value', i, op,
+                            'numbers in every pass', 'a pass calculated something that is not a number')
+                continue
             if 0 < passes < iterations and not fired:
                 for t, xs in sorted(calls.items()):
                     prev = xs[-2] if len(xs) >= 2 else prev_last.get(t)
